@@ -61,6 +61,13 @@ func startRaftNode(id uint64, nodeIds []uint64, storage wal.WAL, logger *log.Ent
 	}
 
 	if len(nodeIds) > 0 {
+		if lastIndex, err := storage.LastIndex(); err != nil {
+			return nil, err
+		} else if lastIndex > 0 {
+			// The log store already holds this replica's state (a restart):
+			// resume from it instead of bootstrapping the group again
+			return etcdRaft.RestartNode(raftConfig), nil
+		}
 		var peers []etcdRaft.Peer
 		for _, nodeId := range nodeIds {
 			peers = append(peers, etcdRaft.Peer{ID: nodeId})
